@@ -51,9 +51,17 @@ def lossy (kind era : String) : Bool :=
   -- type of the decoded component (GV.Gen.G10bTypes, reflection on the running code) and
   -- whether that type's MarshalCBOR returns the stored bytes (GV.Gen.Preserve, go/ast)
   | "blk" | "hdr" | "body" | "wit" => GV.Model.PreserveTypes.lossyKind kind era
-  -- outputs: one transaction can carry outputs of several concrete types (legacy array /
-  -- map form, wrapped types); every era shows non-preserved outputs today
-  | "out" => true
+  -- outputs: decided per failing item from its concrete Go type, see `outLossy`
+  | "out" => false
+  | _ => false
+
+/-- `enc out` ops: one transaction can carry outputs of several concrete Go types (legacy
+    array / map form, wrapped types), so the harness reports the type of the output that failed
+    (`enc=bad:tx<i>.out<j>:<pkg.Type>`); the failure belongs to the recorded class `reencode-out`
+    iff that type does not return its stored bytes (GV.Gen.Preserve, regenerated from the source). -/
+def outLossy (impl : String) : Bool :=
+  match impl.splitOn ":" with
+  | ["enc=bad", _, ty] => !GV.Model.PreserveTypes.preserves 4 ty
   | _ => false
 
 /-- stored spans inside a standalone transaction `[body, witness set, (is_valid,) aux/null]`
@@ -142,7 +150,7 @@ def handle (line : String) : Out :=
       -- the model has no re-encoder: it echoes the implementation's verdict; the
       -- property demands byte-identical re-serialisation whenever the block decodes
       { model := impl, spec := "enc=ok||dec=err",
-        cls := if lossy kind era then "reencode-" ++ kind else "" }
+        cls := if lossy kind era || (kind == "out" && outLossy impl) then "reencode-" ++ kind else "" }
     | _ => badOp
   | _ => badOp
 
